@@ -53,7 +53,7 @@ class TlsCtx:
             f = cand[0] if len(cand) == 1 else None
             if f is None: raise core.Inconclusive('cannot locate %s::%s in the MIR dump of actix-tls' % (ty, meth))
             return f
-        self.NEW = M('Acceptor', 'new'); self.SET_TO = M('Acceptor', 'set_handshake_timeout'); self.NEW_SERVICE = M('Acceptor', 'new_service', 'ServiceFactory')
+        self.NEW = M('Acceptor', 'new'); self.CLONE = M('Acceptor', 'clone', 'Clone'); self.SET_TO = M('Acceptor', 'set_handshake_timeout'); self.NEW_SERVICE = M('Acceptor', 'new_service', 'ServiceFactory')
         self.POLL_READY = M('AcceptorService', 'poll_ready', 'Service'); self.CALL = M('AcceptorService', 'call', 'Service'); self.FUT_POLL = M('AcceptFut', 'poll', 'Future')
         self.COUNTER_NEW = M('Counter', 'new', None, 'counter.rs')
         for need in ('Acceptor', 'AcceptorService', 'AcceptFut', 'CounterInner', 'LocalWaker'):
@@ -87,6 +87,9 @@ class TlsWorld:
         ex.tls_counter = ex.run(ctx.COUNTER_NEW, [self.limit])
         acceptor = ex.run(ctx.NEW, [Opaque('ServerConfig')])
         ex.run(ctx.SET_TO, [Ref(LCell(Cell(acceptor))), self.timeout])
+        # a server clones its service factory once per worker: the service is built from a CLONE of the configured acceptor (a clone
+        # must behave like the original); the native driver does the same
+        acceptor = ex.run(ctx.CLONE, [Ref(LCell(Cell(acceptor)))])
         rdy = ex.run(ctx.NEW_SERVICE, [Ref(LCell(Cell(acceptor))), UNIT])
         svc = _unwrap_ready(rdy)
         if svc.variant != 'Ok': raise core.Inconclusive('Acceptor::new_service failed in the model')
